@@ -721,6 +721,9 @@ def call_method(eng, o, name, args, kwargs, node):
     from . import reclist as RL
 
     if isinstance(o, RL.RecElem):
+        cell0 = eng.heap[o.ref.id]
+        if cell0.get("as_objects") and name in cell0.get("methods", {}):
+            return RL.elem_get(eng, o, cell0["methods"][name], node)
         if name == "keys":
             return RecKeys(o)
         if name == "get":
@@ -2208,6 +2211,16 @@ def get_attr(eng, o, attr, node):  # noqa: F811
     if isinstance(o, OptV):
         o = eng.unopt(o, node)
     if isinstance(o, RecElem):
+        cell = eng.heap[o.ref.id]
+        if cell.get("as_objects"):
+            # a list of record-like OBJECTS (e.g. Folder): attributes are the columns, methods are modelled columns
+            if attr in cell["cols"]:
+                from .reclist import elem_get
+
+                return elem_get(eng, o, attr, node)
+            if attr in cell.get("methods", {}):
+                return BuiltinMethod(o, attr)
+            raise EngineError("attribute %s of a modelled record object" % attr)
         return BuiltinMethod(o, attr)
     if isinstance(o, SuperV):
         for b in o.cls.bases:
